@@ -551,6 +551,7 @@ def do_call(I, name, args, ins):
         r = args[0] * args[1]; return [mask(r, 64), 1 if r >> 64 else 0]
     if name == 'tolower':
         c = args[0]; return c + 32 if 65 <= c <= 90 else c
+    if name == 'acos' and isinstance(args[0], SR): return R.acos(args[0])
     if name in ('acos', 'cos', 'sin', 'exp', 'log', 'atan2', 'pow', 'asin', 'tanh'):
         return getattr(math, name)(*args)
     if name == 'verif_sym_double':
